@@ -49,6 +49,33 @@ Definition g_compute_spectrum_slot_vs_bandwidth (bandwidth spacing bit_rate : Z)
   let total_number_of_slots := ((cdiv spacing slot_width) * number_of_wavelengths) in
   (number_of_wavelengths, total_number_of_slots).
 
+(* gnpy/topology/spectrum_assignment.py: determine_slot_numbers, condition of the growing loop *)
+Definition g_dsn_cond (b : bitmap) (center_i i required_m : Z) : res bool :=
+  if slice_all_free (cells b) (center_i - i) (center_i + i) (2 * i) then
+  let* m1 := idx_at b (center_i - i) in
+  if (fi_min b <=? m1) then
+  let* m2 := idx_at b ((center_i + i) - 1) in
+  if (m2 <=? fi_max b) then
+  Ok (i <=? required_m) else Ok false else Ok false else Ok false.
+
+(* gnpy/topology/spectrum_assignment.py: spectrum_selection (free N), condition and centre of a candidate *)
+Definition g_cand_ok (b : bitmap) (requested_m i : Z) : res bool :=
+  if slice_all_free (cells b) i (i + (2 * requested_m)) (2 * requested_m) then
+  let* m1 := idx_at b i in
+  if (fi_min b <=? m1) then
+  let* m2 := idx_at b ((i + (2 * requested_m)) - 1) in
+  Ok (m2 <=? fi_max b) else Ok false else Ok false.
+
+Definition g_cand_centre (b : bitmap) (requested_m i : Z) : res Z :=
+  let* m1 := idx_at b i in
+  Ok (m1 + requested_m).
+
+(* gnpy/topology/spectrum_assignment.py: aggregate_oms_bitmap matches its template (first bitmap copied, bitmap_sum over the others, same n_min / n_max / guard band) *)
+
+(* gnpy/core/utils.py: replace_none matches its template *)
+(* gnpy/core/utils.py: order_slots matches its template *)
+(* gnpy/core/utils.py: restore_order matches its template *)
+
 (* gnpy/topology/spectrum_assignment.py: compute_n_m, decision taken for one (N, M) of the request *)
 Definition g_cnm_step (test : bitmap) (required_m remaining_slots_to_serve per_channel_m : Z) (policy : policy) (s : slot_req) : res step_res :=
   match s with
